@@ -13,19 +13,20 @@ import (
 	"sort"
 	"strconv"
 	"strings"
+	"sync"
 	"time"
 )
 
 type PropConfig struct {
-	Pkgs       []string `json:"pkgs"`
-	Title      string   `json:"title"`
-	Trusted    []string `json:"trusted_base"`
-	Assume     []string `json:"assumptions"`
-	Lemmas     []string `json:"lemmas"`
-	Inst       bool     `json:"inst"`
-	Bounded    []string `json:"bounded_standins"`
-	MinObl     int      `json:"min_obligations"`
-	LemmaDirs  []string `json:"lemma_dirs"`
+	Pkgs      []string `json:"pkgs"`
+	Title     string   `json:"title"`
+	Trusted   []string `json:"trusted_base"`
+	Assume    []string `json:"assumptions"`
+	Lemmas    []string `json:"lemmas"`
+	Inst      bool     `json:"inst"`
+	Bounded   []string `json:"bounded_standins"`
+	MinObl    int      `json:"min_obligations"`
+	LemmaDirs []string `json:"lemma_dirs"`
 }
 
 type Finding struct {
@@ -105,15 +106,15 @@ func loadFindings(path string) []Finding {
 }
 
 type obligationReport struct {
-	Name    string   `json:"name"`
-	Kind    string   `json:"kind"`
-	Fn      string   `json:"function"`
-	Status  string   `json:"status"`
-	Solver  string   `json:"solver,omitempty"`
-	Second  string   `json:"confirmed_by,omitempty"`
-	Seconds float64  `json:"solver_s"`
-	Paths   int      `json:"path_instances"`
-	Goal    string   `json:"goal,omitempty"`
+	Name    string  `json:"name"`
+	Kind    string  `json:"kind"`
+	Fn      string  `json:"function"`
+	Status  string  `json:"status"`
+	Solver  string  `json:"solver,omitempty"`
+	Second  string  `json:"confirmed_by,omitempty"`
+	Seconds float64 `json:"solver_s"`
+	Paths   int     `json:"path_instances"`
+	Goal    string  `json:"goal,omitempty"`
 }
 
 func cmdCheck(args []string) int {
@@ -214,6 +215,8 @@ func cmdCheck(args []string) int {
 	var samples []interface{}
 	nFns := 0
 	totalInstr := 0
+	var selected []*Contract
+	var outside []string
 	for _, ct := range cs.Order {
 		if ct.External || ct.Trusted || ct.Opaque || ct.onlyInline() {
 			continue
@@ -227,8 +230,41 @@ func cmdCheck(args []string) int {
 		if !serves {
 			continue
 		}
+		selected = append(selected, ct)
+	}
+	type verified struct {
+		fr   *FnResult
+		outs []*goalOutcome
+	}
+	results := make([]*verified, len(selected))
+	{
+		var wg sync.WaitGroup
+		fsem := make(chan struct{}, 6)
+		for i, ct := range selected {
+			i, ct := i, ct
+			wg.Add(1)
+			go func() {
+				defer wg.Done()
+				fsem <- struct{}{}
+				defer func() { <-fsem }()
+				t1 := time.Now()
+				fr := p.verifyFunctionWith(cs, ct, activeFindings)
+				v := &verified{fr: fr}
+				capped := len(fr.Unsupported) > 0 && strings.HasPrefix(fr.Unsupported[0], "path cap exceeded")
+				if fr.Attached && !capped {
+					v.outs = discharge(dir, fr, timeout, confirm, sem, *keep != "")
+				}
+				if os.Getenv("GVC_DEBUG") != "" {
+					fmt.Fprintf(os.Stderr, "%6.1fs %5d goals %4d paths %s\n", time.Since(t1).Seconds(), len(fr.Goals), fr.Paths, shortFn(ct.Func))
+				}
+				results[i] = v
+			}()
+		}
+		wg.Wait()
+	}
+	for i, ct := range selected {
 		nFns++
-		fr := p.verifyFunctionWith(cs, ct, activeFindings)
+		fr := results[i].fr
 		totalInstr += fr.Instrs
 		fnsUnder = append(fnsUnder, fmt.Sprintf("%s (%d SSA instrs, %d paths)", shortFn(ct.Func), fr.Instrs, fr.Paths))
 		for _, n := range fr.Inlined {
@@ -251,6 +287,12 @@ func cmdCheck(args []string) int {
 				}
 			}
 		}
+		if ct.File == "synthesised" && len(fr.Unsupported) == 1 && strings.HasPrefix(fr.Unsupported[0], "path cap exceeded") {
+			// instance outside the verifier's reach: listed, never counted as pass or violation
+			outside = append(outside, shortFn(ct.Func)+": "+fr.Unsupported[0])
+			nFns--
+			continue
+		}
 		if !fr.Attached || len(fr.Unsupported) > 0 || len(fr.SpecErrs) > 0 {
 			a := &aggGoal{Name: shortFn(ct.Func) + "#attached", Kind: "attached", Fn: ct.Func, Status: "detached", Props: ct.Props}
 			why := "function or loop named by the contract not found in the working tree"
@@ -272,7 +314,7 @@ func cmdCheck(args []string) int {
 			totalOK++
 			reports = append(reports, obligationReport{Name: shortFn(ct.Func) + "#attached", Kind: "attached", Fn: shortFn(ct.Func), Status: "discharged", Solver: "structural"})
 		}
-		outs := discharge(dir, fr, timeout, confirm, sem, *keep != "")
+		outs := results[i].outs
 		agg := aggregate(outs)
 		for _, a := range agg {
 			if !hasProp(a.Props, *prop) {
@@ -436,11 +478,11 @@ func cmdCheck(args []string) int {
 		}
 	}
 	cov := map[string]interface{}{
-		"obligations":  totalObl,
-		"discharged":   totalOK,
-		"checker_cmd":  fmt.Sprintf("/verif/bin/gvc check -prop %s -tier %s", *prop, *tier),
-		"trusted_base": trusted,
-		"samples":      samples,
+		"obligations":              totalObl,
+		"discharged":               totalOK,
+		"checker_cmd":              fmt.Sprintf("/verif/bin/gvc check -prop %s -tier %s", *prop, *tier),
+		"trusted_base":             trusted,
+		"samples":                  samples,
 		"functions_under_contract": fnsUnder,
 		"inlined_functions":        inlined,
 		"ssa_instructions":         totalInstr,
@@ -450,7 +492,14 @@ func cmdCheck(args []string) int {
 		"known_findings_confirmed": len(knownConfirmed),
 		"load_s":                   round3(loadS),
 	}
+	if len(outside) > 0 {
+		cov["outside_reach"] = outside
+		for _, o := range outside {
+			assumptions = append(assumptions, "outside reach (not verified, not counted): "+o)
+		}
+	}
 	if instInfo != nil {
+		cov["skipped_schemas"] = instInfo.skipped
 		cov["programs"] = len(instInfo.schemas)
 		cov["corpus"] = instInfo.schemas
 	}
